@@ -57,7 +57,7 @@ func CompileRego(regoUnit *generator.RegoUnit, eventChan *chan e.Event) (compile
 	query := rego.Query("data." + regoUnit.Name + "." + regoUnit.Entrypoint)
 	module := rego.Module(regoUnit.Name+".rego", regoUnit.Code)
 	unsafeBuiltins := rego.UnsafeBuiltins(unsafeBuiltinsMap)
-	preparedEvalQuery, err := rego.New(query, module, unsafeBuiltins).PrepareForEval(context.Background())
+	preparedEvalQuery, err := rego.New(query, module, unsafeBuiltins, keepPrintCalls()).PrepareForEval(context.Background())
 	dispatchEvent(e.NewEvent(e.RegoCompilationDone), eventChan)
 	return &preparedEvalQuery, err
 }
